@@ -15,7 +15,7 @@ CONSTANTS ZZero, ZOne, ZFromInt(_), ZToInt(_), ZSign(_), ZIsZero(_), ZNeg(_), ZA
           ZShl(_, _), ZShr(_, _), ZBitLen(_), ZTrailing(_), ZIsOdd(_),
           ZLowZero(_, _), ZBit(_, _), ZPow(_, _), ZPow2(_), ZDivFloor(_, _), ZMod(_, _),
           ZMk(_, _)
-INSTANCE Oblig
+INSTANCE RealFun
 
 F(j) == Mpf(j.s, ZMk(0, j.m), j.e, j.bc)
 Zj(j) == ZMk(j.s, j.m)
@@ -147,8 +147,25 @@ NestClauses(ev) ==
           \/ FCmp(F(xs[i + 1].v[1]), F(xs[i + 1].v[2])) > 0
      THEN {"nested"} ELSE {}
 
+(* "real": an elementary function value judged against the spec's own series enclosure; "realconst": a constant   *)
+(* judged for correct rounding against the enclosure.  An enclosure too wide for the comparison gives "undecided", *)
+(* which the harness counts and never reports as a violation.                                                      *)
+RealClauses(ev) ==
+  LET r == F(ev.o)
+      verdict == CASE ev.op = "real" -> EnclJudge(r, Encl(ev.x.f, DV(Arg(ev.a[1])), ev.x.w), ev.x.tol, ev.p)
+                   [] ev.op = "realround" -> EnclRound(r, Encl(ev.x.f, DV(Arg(ev.a[1])), ev.x.w), ev.p, ev.r)
+                   [] OTHER -> EnclRound(r, ConstEncl(ev.x.f, ev.x.w), ev.p, ev.r)
+  IN IF verdict = "bad" THEN {"post"} ELSE IF verdict = "undecided" THEN {"undecided"} ELSE {}
+
 PostClauses(ev) ==
-  CASE ev.op = "const" -> ConstClauses(ev)
+  CASE ev.op \in {"real", "realround", "realconst"} -> RealClauses(ev)
+    [] ev.op = "phi_round" -> \* the golden ratio (1+sqrt 5)/2 correctly rounded: phi ? b  <=>  5 ? (2b-1)^2  (exact, algebraic)
+         LET r == F(ev.o)
+             CmpPhi(m, e) == LET t == DySub(Dy(ZShl(m, 1), e), Dy(ZOne, 0))          \* 2b - 1
+                             IN IF DySign(t) <= 0 THEN 1 ELSE DyCmp(Dy(ZFromInt(5), 0), DyMul(t, t))
+             c == Cell(r, ev.p, ev.r)
+         IN IF RoundedShape(r, FALSE, ev.p) /\ InCell(c, CmpPhi(c.lo, c.e), CmpPhi(c.hi, c.e)) THEN {} ELSE {"post"}
+    [] ev.op = "const" -> ConstClauses(ev)
     [] ev.op = "const5" -> Const5Clauses(ev)
     [] ev.op = "nest" -> NestClauses(ev)
     [] OTHER -> IF ~Post(ev) THEN {"post"} ELSE {}
